@@ -24,6 +24,7 @@ type SpecEnv struct {
 	loop        *loopInfo
 	inOld       bool
 	errs        []string
+	typeArgs    map[string]types.Type // instantiation of the callee's type parameters at a call site
 }
 
 func (e *SpecEnv) fail(x spec.Expr, format string, a ...any) Val {
@@ -252,6 +253,23 @@ func (e *SpecEnv) resolveType(t spec.TypeExpr) (types.Type, string, bool) {
 	}
 	if _, ok := vc.S.Extra[t.Name]; ok {
 		return nil, t.Name, true
+	}
+	if ta, ok := e.typeArgs[t.Name]; ok {
+		return ta, vc.S.Sort(ta), true
+	}
+	// type parameters of the function under contract
+	for fr := e.fr; fr != nil; fr = fr.parent {
+		fn := fr.fn
+		if o := fn.Origin(); o != nil {
+			fn = o
+		}
+		if tps := fn.TypeParams(); tps != nil {
+			for i := 0; i < tps.Len(); i++ {
+				if tps.At(i).Obj().Name() == t.Name {
+					return tps.At(i), vc.S.Sort(tps.At(i)), true
+				}
+			}
+		}
 	}
 	if tn := e.lookupTypeName(t.Name); tn != nil {
 		return tn.Type(), vc.S.Sort(tn.Type()), true
@@ -871,6 +889,52 @@ func (e *SpecEnv) call(x *spec.Call) Val {
 		if need(2) {
 			return Val{T: B, Term: fmt.Sprintf("(str.in_re %s %s)", argT(0), argT(1))}
 		}
+	case "isMethodOf":
+		// isMethodOf(n, "import/path.Type"): n is the name of an exported method of *Type (from go/types; A10)
+		if need(2) {
+			sl, ok := x.Args[1].(*spec.StrLit)
+			if !ok {
+				return e.fail(x, "isMethodOf: second argument must be a string literal")
+			}
+			i := strings.LastIndex(sl.Val, ".")
+			if i < 0 {
+				return e.fail(x, "isMethodOf: want import/path.Type")
+			}
+			p := vc.W.PkgByPath[sl.Val[:i]]
+			if p == nil || p.Types == nil {
+				return e.fail(x, "isMethodOf: package %s is not loaded", sl.Val[:i])
+			}
+			tn, ok := p.Types.Scope().Lookup(sl.Val[i+1:]).(*types.TypeName)
+			if !ok {
+				return e.fail(x, "isMethodOf: no type %s", sl.Val)
+			}
+			ms := types.NewMethodSet(types.NewPointer(tn.Type()))
+			var alts []string
+			n := argT(0)
+			for k := 0; k < ms.Len(); k++ {
+				if ms.At(k).Obj().Exported() {
+					alts = append(alts, fmt.Sprintf("(= %s %s)", n, strLit(ms.At(k).Obj().Name())))
+				}
+			}
+			vc.Assumed["A10: reflect enumerates exactly the exported methods go/types reports for *"+sl.Val] = true
+			return Val{T: B, Term: or(alts...)}
+		}
+	case "apply":
+		// apply(f, args...): the result of calling the function value f (see dynCall)
+		if len(x.Args) >= 1 {
+			f := arg(0)
+			sig, ok := f.T.Underlying().(*types.Signature)
+			if !ok || sig.Results().Len() != 1 {
+				return e.fail(x, "apply: first argument must be a function value with one result")
+			}
+			name, as, rs := vc.dynName(sig)
+			vc.declareFun(name, append([]string{"Int"}, as...), rs[0])
+			ts := []string{e.termOf(f)}
+			for i := 1; i < len(x.Args); i++ {
+				ts = append(ts, argT(i))
+			}
+			return Val{T: sig.Results().At(0).Type(), Term: "(" + name + " " + strings.Join(ts, " ") + ")"}
+		}
 	case "emptyset":
 		if need(0) {
 			return Val{Sort: "(Array String Bool)", Term: "((as const (Array String Bool)) false)"}
@@ -1150,6 +1214,14 @@ func (e *SpecEnv) callPureVals(x *spec.Call, f *ssa.Function, args []Val) Val {
 			vc.wf[key] = true
 			res.Term = vc.define("pr", vc.S.Sort(rt), app)
 			env := &SpecEnv{vc: vc, fr: nil, st: e.state(), old: e.state(), names: map[string]Val{}, bound: map[string]Val{}, pkg: calleePkg(f)}
+			if f.TypeParams().Len() > 0 {
+				if targs := inferTypeArgs(f, args); targs != nil {
+					env.typeArgs = map[string]types.Type{}
+					for i := 0; i < f.TypeParams().Len(); i++ {
+						env.typeArgs[f.TypeParams().At(i).Obj().Name()] = targs[i]
+					}
+				}
+			}
 			for i, nme := range calleeParamNames(f, sp) {
 				if i < len(args) {
 					env.names[nme] = args[i]
